@@ -630,6 +630,11 @@ func (x *Exec) callCommon(fr *Frame, st *State, in ssa.Instruction, c *ssa.CallC
 		x.inlineCall(fr, st, in, callee, args, fnv.Bind, k)
 		return
 	}
+	// small loop-free callees of the repository without a contract are inlined (their code is what runs)
+	if callee.Blocks != nil && len(callee.Blocks) <= 10 && fr.depth < maxInlineDepth-1 && len(x.loopInfo(callee).headers) == 0 && strings.HasPrefix(callee.Pkg.Pkg.Path(), modulePath) && !isRecursive(fr, callee) {
+		x.inlineCall(fr, st, in, callee, args, nil, k)
+		return
+	}
 	// unknown callee: inferred frame
 	eff := x.frameOf(callee, map[*ssa.Function]bool{})
 	if eff.all {
@@ -675,8 +680,9 @@ func (x *Exec) specialCallee(fr *Frame, st *State, in ssa.Instruction, callee *s
 }
 
 // bytesEq: content equality of two byte slices as a fresh proposition p with
-//   p ==> len equal and (forall i) bytes equal      (quantified assumption, instantiated at emission)
-//   !p ==> lengths differ or a witness index differs
+//
+//	p ==> len equal and (forall i) bytes equal      (quantified assumption, instantiated at emission)
+//	!p ==> lengths differ or a witness index differs
 func (x *Exec) bytesEq(st *State, a, b Val) string {
 	et := a.T.Underlying().(*types.Slice).Elem()
 	l := x.lazyFor(st, et).clone()
@@ -690,7 +696,7 @@ func (x *Exec) bytesEq(st *State, a, b Val) string {
 	}}})
 	st.assume(sImp(p, sEq(a.Len, b.Len)))
 	st.assume(sImp(sNot(p), sOr(sNot(sEq(a.Len, b.Len)), sAnd(sLe("0", w), sLt(w, a.Len), sNot(body(w))))))
-	st.addIdx(w)
+	st.addIdxSeq(w, a.Arr)
 	return p
 }
 
@@ -780,7 +786,7 @@ func (x *Exec) doAppend(fr *Frame, st *State, in ssa.Instruction, s, t Val) Val 
 	snap := cur.clone()
 	if strSrc {
 		hv := x.decls.Fresh("strbytes", "(Array Int (Array Int Int))")
-		x.decls.Axiom(hv, fmt.Sprintf("(forall ((a Int) (i Int)) (! (and (<= 0 (select (select %s a) i)) (<= (select (select %s a) i) 255)) :pattern ((select (select %s a) i))))", hv, hv, hv))
+		x.byteArrayFacts(hv)
 		if fits != "false" {
 			cur.ups = append(cur.ups, Upd{guard: guardOf(fits), arr: s.Arr, lo: sAdd(s.Off, s.Len), n: m, havoc: []string{hv}})
 		}
@@ -800,7 +806,7 @@ func (x *Exec) doAppend(fr *Frame, st *State, in ssa.Instruction, s, t Val) Val 
 		}
 	}
 	st.hv++
-	st.addIdx(s.Len)
+	st.addIdxSeq(s.Len, s.Arr)
 	return Val{K: KSlice, T: s.T,
 		Arr: sIte(fits, s.Arr, nr),
 		Off: sIte(fits, s.Off, "0"),
@@ -1057,4 +1063,13 @@ func (x *Exec) readsOf(fn *ssa.Function, visiting map[*ssa.Function]bool) *Effec
 func isErrorType(t types.Type) bool {
 	n, ok := t.(*types.Named)
 	return ok && n.Obj().Pkg() == nil && n.Obj().Name() == "error"
+}
+
+func isRecursive(fr *Frame, callee *ssa.Function) bool {
+	for f := fr; f != nil; f = f.parent {
+		if f.fn == callee {
+			return true
+		}
+	}
+	return false
 }
